@@ -6,6 +6,9 @@ use serde_json::Value;
 pub mod util;
 pub mod c03;
 pub mod c08;
+pub mod c11;
+pub mod c12;
+pub mod c20;
 
 const NEEDS_MIR: [&str; 4] = ["C08", "C11", "C12", "C20"];
 
@@ -32,6 +35,9 @@ pub fn dispatch(prop: &str, m: &Model, ctx: &mut Ctx, facts: Option<&Value>) -> 
     match prop {
         "C03" => c03::run(m, ctx),
         "C08" => c08::run(m, ctx, loaded.as_ref().unwrap()),
+        "C11" => c11::run(m, ctx, loaded.as_ref().unwrap()),
+        "C12" => c12::run(m, ctx, loaded.as_ref().unwrap()),
+        "C20" => c20::run(m, ctx, loaded.as_ref().unwrap()),
         _ => return false,
     }
     true
